@@ -35,8 +35,14 @@ def check_block_header_proof(root_cell: "Cell", block_hash: bytes, store_state_h
     if root_hash != block_hash:
         raise ProofError('Block header proof error: hashes unmatch')
     if store_state_hash:
-        state_update = root_cell[2][1]
-        return state_update.get_hash(0)
+        state_update = root_cell[2]
+        if state_update.type_ != CellTypes.merkle_update:
+            raise ProofError('Block header proof error: state update is not a Merkle update cell')
+        # the block hash commits to the hashes stored in the Merkle update cell, not to the level-0 hash of whatever child is attached
+        new_hash = state_update.data[33:65]
+        if state_update[1].get_hash(0) != new_hash:
+            raise ProofError('Block header proof error: new state hash unmatch')
+        return new_hash
     return
 
 
